@@ -88,6 +88,7 @@ def check(case, ctx):
     model = {}  # scope -> session
     all_sessions = []
     mixed = {"get_remove_threads": set()}
+    inflight = {}  # scope -> number of registry() calls currently in progress (shared scopes: the session may exist before the model learns of it)
 
     def work_for(prog):
         def work(w):
@@ -97,7 +98,11 @@ def check(case, ctx):
                 if name == "remove" and shared:
                     name = "get"
                 if name in ("get", "add", "contains", "expunge_all"):
-                    s = ss()
+                    inflight[scope] = inflight.get(scope, 0) + 1
+                    try:
+                        s = ss()
+                    finally:
+                        inflight[scope] -= 1
                     if s not in all_sessions:
                         all_sessions.append(s)
                     cur = model.get(scope)
@@ -131,7 +136,7 @@ def check(case, ctx):
                             raise _Inv("C52/proxy/expunge_all", "scope's session not emptied")
                 elif name == "has":
                     got = ss.registry.has()
-                    if got != (scope in model):
+                    if got != (scope in model) and not (got and inflight.get(scope, 0) > 0):
                         raise _Inv("C52/registry/has", f"scope {scope}: registry.has() == {got}, model says {scope in model}")
                 elif name == "remove":
                     cur = model.get(scope)
